@@ -594,7 +594,7 @@ func init() {
 		Assume:      []string{"canonical tree dump of internal/obs (numbers by value, everything else by token type+literal)"},
 		QuickCap:    100 * time.Second,
 		ThoroughCap: 20 * time.Minute,
-		HangLimit:   30 * time.Second,
+		HangLimit:   240 * time.Second,
 		Run:         runC02,
 		Replay: func(c *core.Ctx, cs core.Case) *core.Viol {
 			v, _ := c02One(string(cs.Bytes()), cs.Kind)
@@ -608,7 +608,7 @@ func init() {
 		Assume:      []string{"Go map iteration order is not ownable: the printer ranges over no map (MapLiteral.Order is a slice); repetition (3 prints) is the only evidence for that sub-clause"},
 		QuickCap:    100 * time.Second,
 		ThoroughCap: 20 * time.Minute,
-		HangLimit:   30 * time.Second,
+		HangLimit:   240 * time.Second,
 		Run:         runC03,
 		Replay: func(c *core.Ctx, cs core.Case) *core.Viol {
 			if cs.Kind == "hist" {
